@@ -1,5 +1,5 @@
 (* C05 -- distance() is the exact squared Euclidean transform in any dimension. *)
-Require Import MV.Base.Prelude MV.Base.CInt MV.Base.Index MV.Model.Distance MV.Proof.DistanceProof MV.Proof.EnvelopeProof MV.Proof.DistanceExact.
+Require Import MV.Base.Prelude MV.Base.CInt MV.Base.Index MV.Model.Distance MV.Proof.DistanceProof MV.Proof.EnvelopeProof MV.Proof.DistanceExact MV.Proof.GvoronoiProof.
 
 (* one pass per axis over an n-D array, each pass computing the 1-D min-plus convolution with x^2, yields at every
    pixel the minimum over the WHOLE grid of (squared Euclidean distance + initial value): any dimension, any shape
@@ -48,3 +48,16 @@ Theorem C05_distance_is_the_exact_transform : forall a, wf_arr a -> forall p, in
   ((forall q, in_shape (shape a) q -> aget a q <> 0) ->
      forall u v, in_shape (shape a) u -> in_shape (shape a) v -> sqdist u v < r).
 Proof. exact distance_exact. Qed.
+
+(* gvoronoi -- the model of segmentation.gvoronoi + _distance.dt with origin tracking -- gives every pixel the label of a NEAREST
+   labelled pixel (least squared Euclidean distance; any dimension, any shape), and labelled pixels keep their label *)
+Theorem C05_gvoronoi_is_a_nearest_label : forall lab, wf_arr lab -> (exists q0, in_shape (shape lab) q0 /\ aget lab q0 <> 0) ->
+  forall p, in_shape (shape lab) p ->
+  exists q, in_shape (shape lab) q /\ aget lab q <> 0 /\
+            nthZ 0 (gvoronoi lab) (ravel (shape lab) p) = aget lab q /\
+            forall q', in_shape (shape lab) q' -> aget lab q' <> 0 -> sqdist p q <= sqdist p q'.
+Proof. exact gvoronoi_nearest_label. Qed.
+
+Theorem C05_gvoronoi_keeps_labels : forall lab, wf_arr lab -> forall p, in_shape (shape lab) p -> aget lab p <> 0 ->
+  nthZ 0 (gvoronoi lab) (ravel (shape lab) p) = aget lab p.
+Proof. exact gvoronoi_keeps_labels. Qed.
